@@ -16,8 +16,21 @@ VERIF = os.path.dirname(os.path.dirname(os.path.abspath(__file__)))
 sys.path.insert(0, VERIF)
 
 
+def norm(v):
+    """Native results: named tuples compare as plain tuples (the interpreter's instances are converted the same way)."""
+    if isinstance(v, tuple):
+        return tuple(norm(x) for x in v)
+    if isinstance(v, list):
+        return [norm(x) for x in v]
+    if isinstance(v, dict):
+        return {k: norm(x) for k, x in v.items()}
+    return v
+
+
 def to_native(v):
-    from pyvc.values import BytesVal
+    from pyvc.values import BytesVal, Instance, all_dc_fields
+    if type(v) is Instance and getattr(v.cls, "is_namedtuple", False):
+        return tuple(to_native(v.attrs[n]) for n, _, _ in all_dc_fields(v.cls))
     if isinstance(v, BytesVal):
         return bytearray(v.to_bytes()) if v.mutable else v.to_bytes()
     if isinstance(v, list):
@@ -51,7 +64,7 @@ def main():
             fn = mod.ns[name]
             for args in cases:
                 try:
-                    want = ("ok", getattr(nat, name)(*args))
+                    want = ("ok", norm(getattr(nat, name)(*args)))
                 except Exception as e:  # noqa: BLE001
                     want = ("exc", type(e).__name__)
                 it = Interp(L)
@@ -117,11 +130,16 @@ def main():
                         else:
                             cargs.append(a)
                     try:
-                        want = ("ok", getattr(nat, name)(*cargs))
+                        want = ("ok", norm(getattr(nat, name)(*cargs)))
                     except Exception as e:  # noqa: BLE001
                         want = ("exc", type(e).__name__)
 
                     def ev(v):
+                        from pyvc.values import Instance, all_dc_fields
+                        if type(v) is Instance and getattr(v.cls, "is_namedtuple", False):
+                            return tuple(ev(v.attrs[n]) for n, _, _ in all_dc_fields(v.cls))
+                        if isinstance(v, dict):
+                            return {k: ev(x) for k, x in v.items()}
                         if isinstance(v, BytesVal):
                             raw = bytes(ev(i) for i in v.items)
                             return bytearray(raw) if v.mutable else raw
